@@ -1,7 +1,7 @@
 #!/bin/bash
-# run every claimed check; usage: runall.sh <seed> [tier]
+# run every claimed check; usage: runall.sh <seed> [tier]   (works from any checkout: uses the directory it lives in)
 seed=${1:-1}; tier=${2:-quick}
-cd /verif
+cd "$(dirname "$0")/.."
 for p in C01 C02 C03 C04 C05 C06 C07 C08 C09 C10 C11 C12 C13 C14 C15 C16 C17 C18 C19 C20; do
   VERIF_SEED=$seed ./check $p --tier $tier 2>&1 | grep -E "^C[0-9]+ tier|VIOLATION|KNOWN-FINDING" | cut -c1-160
 done
